@@ -67,6 +67,28 @@ def diffuse_oracle(geo, K, beta_rad, theta, L, trig, cos_eff, pexit, thr, norm, 
     return fsum(w_full) * mcnorm / K, fsum(w_geo) * mcnorm / K, npass
 
 
+def diffuse_sensitivity(geo, K, beta_rad, theta, L):
+    """First-order rounding model for the geometric integral rebuilt from the stored columns: the change of the sum of
+    weights when each stored column moves by a few ulps (the weight 1/(cos theta_NV cos theta_TrV) is ill conditioned
+    near the limb and for view angles near 90 deg; a flat tolerance would be either blind or wrong there)."""
+    eps = 8 * np.finfo(float).eps
+    mcnorm = math.sin(geo.theta_max) ** 2 * math.pi * geo.dphi * geo.bracket() / (2.0 * geo.Rd)
+
+    def w(b, t, l_):
+        cos_nv = (geo.L2 - l_**2) / (2.0 * geo.R * l_)
+        return np.sin(b) / cos_nv / np.cos(t)
+
+    b, t, l_ = np.asarray(beta_rad, float), np.asarray(theta, float), np.asarray(L, float)
+    w0 = w(b, t, l_)
+    d = np.abs(w(b * (1 + eps) + eps, t, l_) - w0) + np.abs(w(b, t * (1 + eps), l_) - w0) + np.abs(w(b, t, l_ * (1 + eps)) - w0)
+    # cos(theta_NV) itself is formed with cancellation in the code (Rd^2 - R^2 - L^2)
+    d = d + np.abs(w0) * eps * geo.Rd**2 / np.abs(geo.L2 - l_**2)
+    # the normalisation integral (Lmax^2 - L^2 over [Lmin, Lmax]) is a difference of cubes: relative noise
+    # ~ eps Lmax^3 / bracket for thin annuli (angle from limb -> 0), in the code's and in the oracle's evaluation
+    norm_noise = 16 * np.finfo(float).eps * geo.L2 * geo.Lmax / geo.bracket()
+    return float(np.sum(d)) * mcnorm / K + norm_noise * float(np.sum(np.abs(w0))) * mcnorm / K
+
+
 def _arr(lst, k):
     return np.array([lst[i % len(lst)] for i in range(k)], dtype=np.float64)
 
@@ -109,8 +131,7 @@ def body_diffuse(case):
     require([a.tobytes() for a in (trig, pexit)] + ([cos_eff.tobytes()] if np.ndim(cos_eff) else []) == snap, "mcintegral modified one of its input arrays")
     e_int, e_geo, e_n = diffuse_oracle(geo, K, beta_rad, theta, L, trig, cos_eff, pexit, thr, norm, wsum)
     scale = max(abs(e_geo), 1e-300)
-    # conditioning: cos(theta_NV) is rebuilt from path_len with cancellation near the limb
-    cond = 1e-11 + 64 * np.finfo(float).eps * geo.Rd**2 / float(np.min(geo.L2 - L**2))
+    cond = 1e-11 + 4.0 * diffuse_sensitivity(geo, K, beta_rad, theta, L) / scale
     require(abs(geo_only - e_geo) <= cond * scale, f"geometric integral {geo_only!r} != independent evaluation from the stored columns {e_geo!r} (rel {abs(geo_only - e_geo) / scale:.2e})")
     require(abs(mcint - e_int) <= cond * scale, f"integral {mcint!r} != independent evaluation {e_int!r} (threshold {thr!r}, rel {abs(mcint - e_int) / scale:.2e})")
     require(int(npass) == e_n, f"passing-event count {int(npass)} != {e_n} (threshold {thr!r}, triggers {trig.tolist()}, cos_eff {np.asarray(cos_eff).tolist()}, cos(view) {np.cos(theta).tolist()})")
@@ -347,7 +368,7 @@ def body_end_to_end(case):
                 labels.add("limb_singular_skipped")
                 continue
             e_int, e_geo, e_n = diffuse_oracle(geo, K, beta, theta, L, trig, ce, pexit, thr, norm, wsum)
-            cond = 1e-10 + 64 * np.finfo(float).eps * geo.Rd**2 / float(np.min(geo.L2 - L**2))
+            cond = 1e-10 + 4.0 * diffuse_sensitivity(geo, K, beta, theta, L) / max(abs(e_geo), 1e-300)
         else:
             dark = None
             if method == "Optical" and case["cuts_on"]:
